@@ -78,7 +78,8 @@ func GenGenesis(t *rapid.T, cfg *refspec.Config, maxN int) GenesisCase {
 	if n > maxN {
 		n = maxN
 	}
-	g := GenesisCase{N: n, GenesisTime: rapid.Uint64Range(0, 1<<40).Draw(t, "genesis_time"), Eth1Seed: rapid.Uint64().Draw(t, "eth1_seed")}
+	g := GenesisCase{N: n, GenesisTime: rapid.Uint64Range(0, 1<<40).Draw(t, "genesis_time"), Eth1Seed: rapid.Uint64().Draw(t, "eth1_seed"),
+		OddCreds: rapid.IntRange(0, 3).Draw(t, "odd_creds") == 0}
 	for i := 0; i < n; i++ {
 		ac := 0
 		if i >= spe { // the first SLOTS_PER_EPOCH validators are always active at genesis
